@@ -8,6 +8,20 @@ from .. import norm as N
 from . import common as K
 
 ACM = 'treadmill.appcfgmgr'
+
+
+def _link_readers(mod):
+    """Names of the routines of a module that read a link target (call
+    os.readlink) - by role, whatever they are called."""
+    out = set(['readlink'])
+    funcs = list(mod.functions.values())
+    for cls in mod.classes.values():
+        funcs.extend(cls.methods.values())
+    for func in funcs:
+        if any(K.callee_text(c) == 'os.readlink' for c in K.calls(func.raw)):
+            out.add(func.name)
+    return out
+
 MON = 'treadmill.monitor'
 FIN = 'treadmill.runtime.linux._finish'
 
@@ -91,7 +105,7 @@ class Kinds(object):
             if name == 'os.path.basename' and expr.args:
                 inner = expr.args[0]
                 src = self._src(inner, depth)
-                if 'readlink' in src or '_resolve_running_link' in src:
+                if any(r in src for r in _link_readers(self.func.module)):
                     return 'container'
                 if 'apps_dir' in src:
                     return 'container'
@@ -239,8 +253,8 @@ def _kinds(ctx, acm):
             if key[0] == 'cmp' and key[1] == '==':
                 terms_ = [t for t, _c in key[2]]
                 if cvar in terms_ and any(
-                        'readlink' in t or '_resolve_running_link' in t
-                        for t in terms_):
+                        r in t for t in terms_
+                        for r in _link_readers(acm.module)):
                     return True
         return False
     for node in terms:
@@ -314,12 +328,17 @@ def _terminal_files(ctx, sync, graph, loop):
             read.add(sub.args[1].value)
     read.discard('terminated')   # written by _terminate itself, after the
     #                              container was handed to cleanup
+    def file_list(expr):
+        # a display, or a module constant holding one
+        if isinstance(expr, ast.Name):
+            expr = sync.module.consts.get(expr.id)
+        return expr if isinstance(expr, (ast.List, ast.Tuple)) else None
     inner = [n for n in K.loop_body_nodes(loop) if n.kind == 'for' and
-             isinstance(n.ast.iter, (ast.List, ast.Tuple))]
+             file_list(n.ast.iter) is not None]
     ctx.require(inner, 'loop over the terminal files in _synchronize',
         rule='C13.3')
     fl = inner[0]
-    listed = set(e.value for e in fl.ast.iter.elts
+    listed = set(e.value for e in file_list(fl.ast.iter).elts
                  if isinstance(e, ast.Constant))
     ctx.ob('C13.3', sync, fl, read <= listed,
            'terminal files consulted by the resync %s include those the '
@@ -479,8 +498,17 @@ def _configure_result(ctx, acm):
         'running_dir' in K.rtxt(conf, c.args[0])
         for c in C.node_calls(n))]
     ctx.require(links, 'running link creation in _configure', rule='C13.6')
+    rdefs = None
     for ret in [n for n in cgraph.nodes if n.kind == 'return']:
         val = ret.ast.value
+        if isinstance(val, ast.Name):
+            # the answer of a helper that was spliced in: every value the
+            # local can hold here
+            rdefs = rdefs or K.reaching_defs(cgraph)
+            vals = K.def_values(cgraph, rdefs, ret, val.id)
+            if vals and all(isinstance(v, ast.Constant) and not v.value
+                            for v in vals):
+                continue
         truthy = isinstance(val, ast.Constant) and bool(val.value)
         if val is None or (isinstance(val, ast.Constant) and not truthy):
             continue
@@ -511,9 +539,11 @@ def _configure_result(ctx, acm):
                'a manifest that cannot be configured is removed from the '
                'cache before _configure answers failure',
                construct='configure failure drops the cache entry')
-    res = acm.methods.get('_resolve_running_link')
-    if res is not None:
-        K.tolerance_polarity(ctx, 'C13.2', res)
+    for rname in sorted(_link_readers(acm.module) - {'readlink'}):
+        res = acm.methods.get(rname)
+        if res is not None and any(isinstance(n, ast.Try)
+                                   for n in ast.walk(res.raw)):
+            K.tolerance_polarity(ctx, 'C13.2', res)
     tgraph = ctx.cfg(term)
     tnz = N.Normaliser()
     for hnode in [n for n in tgraph.nodes if n.kind == 'test' and
